@@ -9,7 +9,7 @@ PROPS = "Props/C07.v"
 COQ_CHECK = ("Model.C07", "check")
 COQ_FALLBACK = None
 COQ_IMPORTS = ""
-SHARD = 40
+SHARD = 70
 RULE = ("mock mappers over random symmetric multigraph neighbour arrays (rings, stars, paths, isolated pixels, duplicate edges, "
         "shuffled row order, padded with -1; 2-10 pixels) with dyadic coefficients of either sign, dyadic signals in and outside [0,1], "
         "random split-cross tables (1, 3 or 4 distinct vertices, barycentric or signed dyadic weights, own pixel present/absent); real "
@@ -128,18 +128,18 @@ def rand_mock_obj(rng, n, style=None, wide=False, signed=False):
 def gen_inputs(tier, rng):
     big = tier == "thorough"
     # A. mock mappers, every scheme
-    for i in range(900 if big else 70):
+    for i in range(900 if big else 56):
         n = rng.randint(2, 10 if big else 8)
         o = rand_mock_obj(rng, n, wide=(i % 5 == 0), signed=(i % 4 == 0))
         yield {"op": "mock", "scheme": rand_scheme(rng, SCHEMES[i % 7], anysign=(i % 6 == 0)), "obj": o}
     # B. real rectangular mappers
-    shapes = [(h, w) for h in range(3, 6) for w in range(3, 7)]
-    for i in range(120 if big else 14):
+    shapes = [(h, w) for h in range(3, 6) for w in range(3, 7)] if big else [(3, 3), (3, 4), (4, 3), (3, 5), (4, 4), (5, 3), (4, 5)]
+    for i in range(72 if big else 10):
         h, w = shapes[i % len(shapes)] if big else rng.choice(shapes)
         yield {"op": "rect", "shape": [h, w], "scheme": rand_scheme(rng, rng.choice(SCHEMES[:5])), "signal_scale": rng.choice([1, 2]),
                "data_shape": [rng.randint(3, 5), rng.randint(3, 5)], "seed": rng.randrange(10 ** 9)}
     # C. real Delaunay mappers (all seven schemes)
-    for i in range(200 if big else 21):
+    for i in range(150 if big else 14):
         yield {"op": "delaunay", "npts": rng.randint(5, 9), "scheme": rand_scheme(rng, SCHEMES[i % 7]), "signal_scale": rng.choice([1, 2]),
                "seed": rng.randrange(10 ** 9)}
     # D. reg_split_from directly (valid and malformed)
@@ -151,7 +151,7 @@ def gen_inputs(tier, rng):
             k = rng.randrange(4 * n); ssz[k] = len(smap[k]); smap[k] = [rng.randrange(n) for _ in smap[k]]
         yield {"op": "split", "params": n, "smap": smap, "ssizes": ssz, "sw": sw}
     # E. inversion assembly: 1-3 objects, with / without regularization, every order
-    for i in range(250 if big else 30):
+    for i in range(250 if big else 24):
         k = rng.randint(1, 3)
         objs = []
         for j in range(k):
@@ -337,10 +337,11 @@ def run_mock(aa, inp):
     mapper = mock_mapper(aa, o)
     reg, out_m, w, terms = scheme_cases(aa, s, o, mapper, "mock")
     # the util function, and LinearObj.regularization_matrix with the scheme attached
+    # (an observation identical to the first one has the same verdict: only a differing one is sent to Coq as well)
     out_u = call(util_call(aa, s, o))
-    terms.append(f"(KMatrix {cscheme(s)} {clobj(fo(o))} {cres_m(out_u)})")
+    if out_u != out_m: terms.append(f"(KMatrix {cscheme(s)} {clobj(fo(o))} {cres_m(out_u)})")
     out_l = call(lambda: mock_mapper(aa, o, reg=reg).regularization_matrix)
-    terms.append(f"(KMatrix {cscheme(s)} {clobj(fo(o))} {cres_m(out_l)})")
+    if out_l != out_m: terms.append(f"(KMatrix {cscheme(s)} {clobj(fo(o))} {cres_m(out_l)})")
     wf = wf_of(s, o)
     ok = pd_observed(out_m, s["name"], wf)
     edges = sum(o["sizes"]) // 2
@@ -371,7 +372,7 @@ def real_common(aa, inp, mapper, s, kind, with_split):
     # LinearObj.regularization_matrix glue on the real mapper
     mapper.regularization = reg
     out_l = call(lambda: mapper.regularization_matrix)
-    terms.append(f"(KMatrix {cscheme(s)} {clobj(fo(o))} {cres_m(out_l)})")
+    if out_l != out_m: terms.append(f"(KMatrix {cscheme(s)} {clobj(fo(o))} {cres_m(out_l)})")
     return {"coq": terms[0], "extra_coq": terms[1:], "out": {"matrix": summary(out_m), "neighbors": o["nb"], "sizes": o["sizes"]},
             "py_ok": ok, "kind": kind + ":" + s["name"], "nontrivial": True, "detail": {"wf": wf}}
 
